@@ -44,7 +44,10 @@ MANIFEST = {
             "required parameters are given), that a class gets one construction with only the constructor's parameters and one call of the chosen "
             "method with only its own (C12_class, C12_class_plain), that a missing required parameter is an error without any call (C12_required, "
             "C12_class_required), that Optional parameters without default are options defaulting to None (C12_optional_none*), and that for every "
-            "list / nested dict of components the subcommand chain leads to exactly the selected component (C12_dispatch, C12_tree_*). The model is "
+            "list / nested dict of components the subcommand chain leads to exactly the selected component (C12_dispatch, C12_tree_*), and that a value "
+            "is bound verbatim in every file system unless the parameter is class-typed / returns a class, the only kinds for which enable_path is set "
+            "(C12_verbatim, C12_verbatim_values, C12_enable_path_witness; expression, sub_configs and a live per-annotation table regenerated and pinned by "
+            "C12_enable_path_pinned). The model is "
             "tied to /repo by regenerating the keys popped by _run_component and the CLI's own options into Gen/CliTables (pinned by "
             "C12_tables_pinned), by building real modules from generated signatures and comparing, for every case, the parser auto_cli constructs "
             "and the recorded calls / return value / error class with the model; the property is also evaluated directly on the real code against "
